@@ -134,16 +134,16 @@ def ref(p):
         if op == 'concat':
             keys = sum([r.keys for r in parts], []) if all(r.keys is not None for r in parts) else None
             keys_api = all(r.keys_api for r in parts) and len(set(keys)) == len(keys)
-            if all(r.outs is not None for r in parts):
-                return Ref(outs=sum([r.outs for r in parts], []), keys=keys, keys_api=keys_api,
-                           indexable=all(r.indexable for r in parts), haslen=True,
-                           ordered=all(r.ordered for r in parts))
             vals, err = [], None
             for r in parts:
                 vals += r.stream[0]
                 if r.stream[1] is not None:
                     err = r.stream[1]
                     break
+            if all(r.outs is not None for r in parts):
+                return Ref(outs=sum([r.outs for r in parts], []), stream=(vals, err), keys=keys, keys_api=keys_api,
+                           indexable=all(r.indexable for r in parts), haslen=True,
+                           ordered=all(r.ordered for r in parts))
             if err is not None and keys is not None:
                 keys = keys[:len(vals)]
             return Ref(stream=(vals, err), keys=keys, keys_api=keys_api, indexable=False,
@@ -167,7 +167,23 @@ def ref(p):
             for row in zip(*[r.outs for r in parts]):
                 bad = [o for o in row if o[0] == 'err']
                 outs.append(bad[0] if bad else ('ok', tuple(o[1] for o in row)))
-            return Ref(outs=outs, indexable=all(r.indexable for r in parts), haslen=True,
+            # iteration: Python's zip over the parts' iterations (first exhausted / first failing part ends it)
+            svals, serr = [], None
+            t = 0
+            while True:
+                row, stop = [], False
+                for r in parts:
+                    if t < len(r.stream[0]):
+                        row.append(r.stream[0][t])
+                    else:
+                        serr = r.stream[1]
+                        stop = True
+                        break
+                if stop:
+                    break
+                svals.append(tuple(row))
+                t += 1
+            return Ref(outs=outs, stream=(svals, serr), indexable=all(r.indexable for r in parts), haslen=True,
                        ordered=all(r.ordered for r in parts))
         # keyZip
         if len(parts) < 2 or not all(r.keys_api and r.outs is not None for r in parts):
@@ -187,13 +203,15 @@ def ref(p):
         f = Fn(p['f'])
         if op == 'parMap' and r.stream[1] is not None:
             raise RefUndefined('parallel map over a failing source (F17)')
-        if r.outs is not None:
-            return Ref(outs=[apply(f, o) for o in r.outs], keys=r.keys, keys_api=r.keys_api,
-                       indexable=r.indexable, haslen=r.haslen, ordered=r.ordered)
-        outs = [apply(f, ('ok', v)) for v in r.stream[0]]
-        vals, err = stream_of(outs)
+        # iteration maps the input's ITERATION (which may end with an error that no position shows,
+        # e.g. a failing dropped tail below); indexing maps the positional outcomes
+        souts = [apply(f, ('ok', v)) for v in r.stream[0]]
+        vals, err = stream_of(souts)
         if err is None:
             err = r.stream[1]
+        if r.outs is not None:
+            return Ref(outs=[apply(f, o) for o in r.outs], stream=(vals, err), keys=r.keys, keys_api=r.keys_api,
+                       indexable=r.indexable, haslen=r.haslen, ordered=r.ordered)
         keys = r.keys[:len(vals)] if r.keys is not None else None
         return Ref(stream=(vals, err), keys=keys, keys_api=r.keys_api and err is None,
                    indexable=False, haslen=r.haslen, ordered=r.ordered)
@@ -324,9 +342,12 @@ def ref(p):
         start = sum(sizes[:i])
         return select(r, list(range(start, start + sizes[i])))
     if op == 'cache':
-        if not r.indexable:
+        if not r.indexable or r.outs is None:
             raise RefUndefined('cache of non-indexable')
-        return r
+        # the cache walks positions 0..len-1 (it never touches a dropped tail) and pairs examples
+        # with keys through the input's keys() table
+        return Ref(outs=r.outs, keys=r.keys if r.keys_api else None, keys_api=r.keys_api, indexable=True,
+                   haslen=True, ordered=r.ordered)
     if op == 'copy':
         return r
     if op == 'cacheEager':
